@@ -209,25 +209,55 @@ def run_case(case, workdir):
                     near = bool(sm.shared_face_pixels(m, L).any())
                     rec.fail("serial_parallel_or_poison_dependent", {"normal": n, "m": m, "fields": fl, "limit_level": limit,
                              "only_near_shared_face": near}, "outputs differ between serial/poison0 and parallel/poison1")
-    # histories on ONE Mandoline object: slices at two positions, then the first again, vs fresh objects
-    pm = [positions[len(positions) // 3], positions[(2 * len(positions)) // 3]]
+    # histories on ONE Mandoline object: slices along all three normals in turn, vs fresh objects
+    n1, n2 = (n + 1) % 3, (n + 2) % 3
+    cen = [0.5 * (ref.geo_lo[d] + ref.geo_hi[d]) + 0.25 * ref.dx[nlev - 1][d] for d in range(3)]
+    seq = [(n, sm.pos_of(positions[len(positions) // 3])), (n1, cen[n1]), (n2, cen[n2]), (n, sm.pos_of(positions[(2 * len(positions)) // 3])),
+           (n2, cen[n2]), (n1, cen[n1]), (n, sm.pos_of(positions[len(positions) // 3]))]
+
+    def fresh(nn, pp, serial):
+        with vpool.controlled():
+            with poisoned(MODS, 0):
+                return call(lambda: Mandoline(path, fields=["G", "A", "grid_level"], serial=serial, verbose=0).slice(normal=nn, pos=pp, fformat="return"))
     for serial in (True, False):
         def hist():
             with vpool.controlled():
                 with poisoned(MODS, 0):
                     mo = Mandoline(path, fields=["G", "A", "grid_level"], serial=serial, verbose=0)
-                    return [mo.slice(normal=n, pos=sm.pos_of(m_), fformat="return") for m_ in (pm[0], pm[1], pm[0])]
+                    return [mo.slice(normal=nn, pos=pp, fformat="return") for nn, pp in seq]
         st, val = call(hist)
-        rec.exe([dh, "history", serial], trans=3)
+        rec.exe([dh, "history", serial], trans=len(seq))
         if st == "exc":
-            rec.fail("history_raised", {"normal": n, "serial": serial}, exc_text(val))
+            rec.fail("history_raised", {"normal": n, "serial": serial, "sequence": seq}, exc_text(val))
         else:
-            for k, m_ in enumerate((pm[0], pm[1], pm[0])):
-                st2, fresh = do(["G", "A", "grid_level"], None, serial, sm.pos_of(m_), 0)
-                if st2 == "ok" and not all(np.array_equal(np.asarray(val[k][f], dtype=float).view(np.uint64), np.asarray(fresh[f], dtype=float).view(np.uint64))
-                                           for f in ("G", "A", "grid_level")):
-                    rec.fail("history_dependent", {"normal": n, "serial": serial, "call": k, "m": m_},
-                             "call %d on a re-used Mandoline object differs from a fresh object" % k)
+            for k, (nn, pp) in enumerate(seq):
+                st2, fr = fresh(nn, pp, serial)
+                if st2 == "ok" and not all(np.array_equal(np.asarray(val[k][f], dtype=float).view(np.uint64), np.asarray(fr[f], dtype=float).view(np.uint64))
+                                           for f in ("G", "A", "grid_level", "x", "y")) or (st2 == "ok" and val[k]["slice_normal"] != fr["slice_normal"]):
+                    rec.fail("history_dependent", {"normal": n, "serial": serial, "call": k, "sequence": seq},
+                             "call %d (normal %d) on a re-used Mandoline object differs from a fresh object" % (k, nn))
+    # every order of the per-box tasks at the positions where a level mixes boxes holding the plane and neighbour boxes
+    from .. import explorer
+    for m in positions:
+        if not sm.shared_face_pixels(m, nlev - 1).any():
+            continue
+        pos = sm.pos_of(m)
+        st0, base = do(["G", "A", "grid_level"], None, True, pos, 0)
+
+        def run(plan):
+            with vpool.controlled(plan) as ctl:
+                with poisoned(MODS, 0):
+                    r = call(lambda: Mandoline(path, fields=["G", "A", "grid_level"], serial=False, verbose=0).slice(normal=n, pos=pos, fformat="return"))
+            return ctl, r
+        for plan, ctl, (st, val) in explorer.explore(run, bound=1):
+            if not plan:
+                continue
+            rec.exe([dh, "sched", m, explorer.plan_json(plan)], trans=sum(c["n"] for c in ctl.calls))
+            same = st == st0 and (st == "exc" or all(np.array_equal(np.asarray(val[f], dtype=float).view(np.uint64), np.asarray(base[f], dtype=float).view(np.uint64))
+                                                      for f in ("G", "A", "grid_level")))
+            if not same:
+                rec.fail("schedule_dependent", {"normal": n, "m": m, "plan": explorer.plan_json(plan)},
+                         "parallel slice under this task order differs from the serial slice")
     # default position = domain centre
     st, val = do(["G"], None, True, None, 0)
     rec.exe([dh, "default_pos"])
